@@ -137,6 +137,23 @@ def hang(x: int) -> int:
 '''
 
 
+# module for the time-limit tie: a call that is slow but well inside its budget
+SLOW_MODULE = '''
+import time
+
+def fast(x: int) -> int:
+    if x > 2:
+        return x + 1
+    return x
+
+def slow(t: float) -> int:
+    time.sleep(t)
+    if t > 1:
+        return 1
+    return 0
+'''
+
+
 def canon_assertion(a) -> str:
     d = {k: v for k, v in vars(a).items()}
     txt = type(a).__name__ + ":" + ";".join(f"{k}={d[k]!r}" for k in sorted(d))
@@ -166,7 +183,7 @@ def main() -> None:  # noqa: PLR0915
     base = Path(sc["dir"])
     base.mkdir(parents=True, exist_ok=True)
     name = "c31sut_" + sc["module"]
-    src = CRASH_MODULE if sc["module"] == "crash" else MODULES[sc["module"]]
+    src = {"crash": CRASH_MODULE, "slow": SLOW_MODULE}.get(sc["module"]) or MODULES[sc["module"]]
     (base / f"{name}.py").write_text(src)
     os.environ["PYNGUIN_DANGER_AWARE"] = "1"
     import logging
@@ -195,10 +212,62 @@ def main() -> None:  # noqa: PLR0915
     with sp.instrumentation_tracer:
         importlib.import_module(name)
     max_t = sc.get("max_timeout", 5)
-    inproc = TestCaseExecutor(sp, maximum_test_execution_timeout=max_t, test_execution_time_per_statement=max_t)
+    per_t = sc.get("per_stmt", max_t)
+
+    # record the two limits of every TestCaseExecutor that is built in a CHILD process (fork keeps the wrapper)
+    parent_pid = os.getpid()
+    limits_file = base / "child_limits.jsonl"
+    real_init = TestCaseExecutor.__init__
+
+    def recording_init(self, *a, **k):
+        real_init(self, *a, **k)
+        if os.getpid() != parent_pid:
+            with limits_file.open("a") as f:
+                f.write(json.dumps([self._maximum_test_execution_timeout,
+                                    self._test_execution_time_per_statement]) + "\n")
+
+    TestCaseExecutor.__init__ = recording_init
+    inproc = TestCaseExecutor(sp, maximum_test_execution_timeout=max_t, test_execution_time_per_statement=per_t)
     sub = SubprocessTestCaseExecutor(sp, maximum_test_execution_timeout=max_t,
-                                     test_execution_time_per_statement=max_t)
+                                     test_execution_time_per_statement=per_t)
     out: dict = {"module": sc["module"], "cases": [], "batches": []}
+
+    def tc(lines):
+        t = TestCase()
+        for i, ln in enumerate(lines):
+            t.add_statement(Statement(node=cst.parse_statement(ln), bound_variable=f"var_{i}"))
+        return t
+
+    if sc["module"] == "slow":
+        nap = sc["nap"]
+        # only test cases of >= 4 statements: with per_stmt = 5 s a shorter one would have a budget that a
+        # loaded machine can exhaust by process start-up alone
+        progs = [["var_0 = 5", "var_1 = fast(var_0)", "var_2 = 1", "var_3 = fast(var_2)"],
+                 ["var_0 = 4", "var_1 = fast(var_0)", "var_2 = 2", "var_3 = fast(var_2)", f"var_4 = slow({nap})",
+                  "var_5 = fast(var_4)"]]
+        tests = [tc(p) for p in progs]
+        for t in tests:
+            rec = {"code": t.to_code(), "size": t.size(), "n_assertions": 0}
+            for exr in (inproc, sub):
+                exr.add_remote_observer(ato.RemoteAssertionTraceObserver())
+            t0 = time.monotonic()
+            r_in = inproc.execute(t)
+            t1 = time.monotonic()
+            r_sub = sub.execute(t)
+            rec["wall"] = [round(t1 - t0, 2), round(time.monotonic() - t1, 2)]
+            for exr in (inproc, sub):
+                exr.clear_remote_observers()
+            rec["pass1"] = {"inproc": canon(r_in, sp), "subproc": canon(r_sub, sp)}
+            out["cases"].append(rec)
+        child = []
+        if limits_file.exists():
+            child = [json.loads(ln) for ln in limits_file.read_text().splitlines() if ln]
+        out["limits"] = {"parent": [sub._maximum_test_execution_timeout, sub._test_execution_time_per_statement],
+                         "child": child, "sizes": [t.size() for t in tests],
+                         "budgets": [sub._calculate_timeout(t) for t in tests],
+                         "batch_budget": sub._calculate_timeout_for_multiple(tuple(tests))}
+        print("RESULT " + json.dumps(out), flush=True)
+        os._exit(0)
 
     if sc["module"] != "crash":
         with sp.instrumentation_tracer.temporarily_disable():
@@ -259,12 +328,6 @@ def main() -> None:  # noqa: PLR0915
             ri = [inproc.execute(t) for t in tests]
             out["batch_all"] = {"subproc": [canon(r, sp) for r in rs], "inproc": [canon(r, sp) for r in ri]}
     else:
-        def tc(lines):
-            t = TestCase()
-            for i, ln in enumerate(lines):
-                t.add_statement(Statement(node=cst.parse_statement(ln), bound_variable=f"var_{i}"))
-            return t
-
         kinds = {"fine": ["var_0 = fine(%d)"], "fine2": ["var_0 = fine(%d)", "var_1 = fine(var_0)"],
                  "die": ["var_0 = die(%d)"], "hang": ["var_0 = hang(%d)"]}
         for pattern in sc["patterns"]:
@@ -277,6 +340,13 @@ def main() -> None:  # noqa: PLR0915
             rs = list(sub.execute_multiple(tests))
             out["batches"].append({"pattern": pattern, "wall": round(time.monotonic() - t0, 2),
                                    "subproc": [canon(r, sp) for r in rs], "inproc": refs})
+    if sc["module"] != "crash":     # killed children may not have reached the executor's construction
+        child = []
+        if limits_file.exists():
+            child = [json.loads(ln) for ln in limits_file.read_text().splitlines() if ln]
+        out["limits"] = {"parent": [sub._maximum_test_execution_timeout, sub._test_execution_time_per_statement],
+                         "child": child, "sizes": [t.size() for t in tests],
+                         "budgets": [sub._calculate_timeout(t) for t in tests]}
     print("RESULT " + json.dumps(out), flush=True)
     os._exit(0)
 
